@@ -3,98 +3,73 @@ From Coq Require Import List Arith Bool Lia.
 From NG Require Import V2.Term.
 Import ListNotations.
 
-Lemma catch_labels_in : forall es pos l,
-  nth_error es pos = Some (ECatch (Some l)) -> In l (catch_labels es).
+Lemma eqb_labels_eq : forall a b, eqb_labels a b = true -> a = b.
 Proof.
-  induction es as [|e es IH]; intros pos l H.
-  - destruct pos; discriminate.
-  - destruct pos as [|pos]; simpl in H.
-    + inversion H; subst. simpl. left; reflexivity.
-    + specialize (IH _ _ H). destruct e; simpl; auto.
-      destruct l0; simpl; auto.
+  induction a as [|x a IH]; destruct b as [|y b]; simpl; intros H; try discriminate; auto.
+  apply andb_true_iff in H. destruct H as [H1 H2]. apply Nat.eqb_eq in H1. f_equal; auto.
 Qed.
 
-Lemma opt_targets_in : forall es ls l i,
-  In l ls -> label_pos es l = Some i -> In (S i) (opt_targets es ls).
+Lemma exec_raise_stops : forall es pos cs e, exists s, exec_elem es ORaise pos cs e = Stop s.
+Proof. intros. simpl. eauto. Qed.
+
+Lemma exec_cont_in_conts : forall es o pos cs e pos' cs' st ni,
+  exec_elem es o pos cs e = Cont pos' cs' st ni -> In (pos', cs') (conts es cs pos e).
 Proof.
-  intros es ls l i Hin Hl. unfold opt_targets. apply in_flat_map.
-  exists l. split; [assumption|]. rewrite Hl. left; reflexivity.
+  intros es o pos cs e pos' cs' st ni H. unfold conts. apply in_flat_map.
+  destruct o.
+  - exists OTrue. split; [left; reflexivity|]. rewrite H. left; reflexivity.
+  - exists OFalse. split; [right; left; reflexivity|]. rewrite H. left; reflexivity.
+  - simpl in H. discriminate.
 Qed.
 
-Ltac break_match_hyp H :=
-  repeat match type of H with
-         | context [match ?x with _ => _ end] => destruct x eqn:?; try discriminate
-         end.
+Lemma check_cert_pos : forall ti es r stk p, check_cert ti es r stk = true -> p < length es ->
+  check_pos ti es r stk p = true.
+Proof.
+  intros ti es r stk p H Hp. unfold check_cert in H. rewrite forallb_forall in H.
+  apply H. apply in_seq. lia.
+Qed.
 
-Lemma exec_cont_succ : forall ti es o pos cs e pos' cs' st ni,
-  nth_error es pos = Some e ->
-  incl cs (catch_labels es) ->
+(* one step of the model respects the static stack and decreases the rank *)
+Lemma cert_step : forall ti es r stk o pos cs e pos' cs' st ni,
+  check_cert ti es r stk = true ->
+  nth_error es pos = Some e -> stk_at stk pos = Some cs ->
   exec_elem es o pos cs e = Cont pos' cs' st ni ->
-  (forall b, e <> EWaitInt b) ->
-  In pos' (succs_gen ti es pos) /\ incl cs' (catch_labels es).
+  rank_at r (Nat.min pos' (length es)) < rank_at r pos /\ rank_at r pos <= length es /\
+  (pos' < length es -> stk_at stk pos' = Some cs').
 Proof.
-  intros ti es o pos cs e pos' cs' st ni Hnth Hcs Hex Hnw.
-  unfold succs_gen. rewrite Hnth.
-  destruct e.
-  - (* EBlock *) destruct o; discriminate.
-  - (* EWaitInt *) exfalso; eapply Hnw; reflexivity.
-  - (* EWaitHeads *) destruct o; try discriminate. inversion Hex; subst. split; [left; reflexivity|assumption].
-  - (* EJump *)
-    unfold target. destruct cond; destruct o; try discriminate; simpl in Hex; break_match_hyp Hex;
-      inversion Hex; subst; (split; [simpl; auto | assumption]).
-  - (* ELabel *) destruct o; try discriminate; inversion Hex; subst; (split; [left; reflexivity|assumption]).
-  - (* EStep *) destruct o; try discriminate; inversion Hex; subst; (split; [left; reflexivity|assumption]).
-  - (* EStart *) destruct o; try discriminate; inversion Hex; subst; (split; [left; reflexivity|assumption]).
-  - (* EFork *) destruct o; try discriminate; simpl in Hex; break_match_hyp Hex.
-  - (* EReturn *) destruct o; discriminate.
-  - (* EAbort *)
-    destruct o; try discriminate; simpl in Hex; break_match_hyp Hex; inversion Hex; subst;
-      (split; [|assumption]); eapply opt_targets_in; try eassumption; apply Hcs; left; reflexivity.
-  - (* ECatch *)
-    destruct o; try discriminate; simpl in Hex; break_match_hyp Hex; inversion Hex; subst;
-      (split; [left; reflexivity|]).
-    + intros x [Hx|Hx]; [subst; eapply catch_labels_in; eassumption | apply Hcs; assumption].
-    + intros x Hx. apply Hcs. right; assumption.
-    + intros x [Hx|Hx]; [subst; eapply catch_labels_in; eassumption | apply Hcs; assumption].
-    + intros x Hx. apply Hcs. right; assumption.
-  - (* EBreak *)
-    destruct o; try discriminate; simpl in Hex; break_match_hyp Hex; inversion Hex; subst;
-      (split; [|assumption]); try (left; reflexivity);
-      eapply opt_targets_in; try eassumption; left; reflexivity.
-Qed.
-
-Lemma exec_waitint_stops : forall es o pos cs b, exists s, exec_elem es o pos cs (EWaitInt b) = Stop s.
-Proof. intros. destruct o; simpl; eauto. Qed.
-
-Lemma check_rank_edge : forall ti es r p q,
-  check_rank_gen ti es r = true -> p < length es -> In q (succs_gen ti es p) ->
-  rank_at r (Nat.min q (length es)) < rank_at r p /\ rank_at r p <= length es.
-Proof.
-  intros ti es r p q Hc Hp Hq. unfold check_rank_gen in Hc.
-  apply andb_true_iff in Hc. destruct Hc as [_ Hall].
-  rewrite forallb_forall in Hall.
-  assert (Hin : In p (seq 0 (length es))) by (apply in_seq; lia).
-  specialize (Hall p Hin). apply andb_true_iff in Hall. destruct Hall as [Hle Hed].
-  rewrite forallb_forall in Hed. specialize (Hed q Hq). unfold edge_ok in Hed.
-  apply Nat.ltb_lt in Hed. apply Nat.leb_le in Hle. split; assumption.
+  intros ti es r stk o pos cs e pos' cs' st ni Hc Hnth Hstk Hex.
+  assert (Hlt : pos < length es) by (apply nth_error_Some; congruence).
+  pose proof (check_cert_pos ti es r stk pos Hc Hlt) as Hp.
+  unfold check_pos in Hp. rewrite Hnth, Hstk in Hp.
+  apply andb_true_iff in Hp. destruct Hp as [Hp Hok].
+  apply andb_true_iff in Hp. destruct Hp as [Hle Hrk].
+  apply Nat.leb_le in Hle.
+  pose proof (exec_cont_in_conts _ _ _ _ _ _ _ _ _ Hex) as Hin.
+  rewrite forallb_forall in Hrk, Hok.
+  assert (Hin1 : In (pos', cs') (succ_cfg ti es stk pos)).
+  { unfold succ_cfg. rewrite Hnth, Hstk. apply in_or_app. left. assumption. }
+  specialize (Hrk _ Hin1). simpl in Hrk. apply Nat.ltb_lt in Hrk.
+  assert (Hin2 : In (pos', cs') (conts es cs pos e ++ resumes es cs pos e)) by (apply in_or_app; left; assumption).
+  specialize (Hok _ Hin2). simpl in Hok. unfold stk_ok in Hok.
+  split; [assumption|]. split; [assumption|].
+  intros Hp'. apply orb_true_iff in Hok. destruct Hok as [Hok|Hok].
+  - apply Nat.leb_le in Hok. lia.
+  - destruct (stk_at stk pos') as [s'|]; [|discriminate]. apply eqb_labels_eq in Hok. congruence.
 Qed.
 
 (* the measure: rank of the current position *)
-Lemma slide_fuel_bound : forall es r, check_rank es r = true ->
+Lemma slide_fuel_bound : forall es r stk, check_cert false es r stk = true ->
   forall fuel orc k pos cs starts ni,
-    incl cs (catch_labels es) ->
+    (pos < length es -> stk_at stk pos = Some cs) ->
     (pos < length es -> rank_at r pos < fuel) -> 0 < fuel ->
     s_stop (slide_fuel fuel es orc k pos cs starts ni) <> OutOfFuel.
 Proof.
-  intros es r Hc. induction fuel as [|fuel IH]; intros orc k pos cs starts ni Hcs Hrk Hpos.
+  intros es r stk Hc. induction fuel as [|fuel IH]; intros orc k pos cs starts ni Hcs Hrk Hpos.
   - lia.
   - simpl. destruct (nth_error es pos) as [e|] eqn:Hnth; [|simpl; discriminate].
     assert (Hlt : pos < length es) by (apply nth_error_Some; congruence).
     destruct (exec_elem es (orc k) pos cs e) as [pos' cs' st ni'|s] eqn:Hex.
-    + assert (Hnw : forall b, e <> EWaitInt b).
-      { intros b Hb; subst e. destruct (exec_waitint_stops es (orc k) pos cs b) as [s Hs]. congruence. }
-      destruct (exec_cont_succ false es (orc k) pos cs e pos' cs' st ni' Hnth Hcs Hex Hnw) as [Hin Hcs'].
-      destruct (check_rank_edge false es r pos pos' Hc Hlt Hin) as [Hdec Hle].
+    + destruct (cert_step false es r stk (orc k) pos cs e pos' cs' st ni' Hc Hnth (Hcs Hlt) Hex) as [Hdec [Hle Hstk']].
       specialize (Hrk Hlt).
       apply IH; [assumption | | lia].
       intros Hp'. rewrite Nat.min_l in Hdec by lia. lia.
@@ -105,31 +80,33 @@ Proof.
                end; inversion Hex; subst; discriminate.
 Qed.
 
+Lemma cert_rank_le : forall ti es r stk pos cs, check_cert ti es r stk = true ->
+  pos < length es -> stk_at stk pos = Some cs -> rank_at r pos <= length es.
+Proof.
+  intros ti es r stk pos cs Hc Hlt Hs.
+  pose proof (check_cert_pos ti es r stk pos Hc Hlt) as Hp. unfold check_pos in Hp.
+  destruct (nth_error es pos) as [e|] eqn:Hn; [|apply nth_error_None in Hn; lia].
+  rewrite Hs in Hp. apply andb_true_iff in Hp. destruct Hp as [Hp _].
+  apply andb_true_iff in Hp. destruct Hp as [Hle _]. apply Nat.leb_le in Hle. assumption.
+Qed.
+
+Theorem slide_bound_cert : forall es r stk, check_cert false es r stk = true ->
+  forall orc pos cs, (pos < length es -> stk_at stk pos = Some cs) ->
+    s_stop (slide (length es + 1) es orc pos cs) <> OutOfFuel.
+Proof.
+  intros es r stk Hc orc pos cs Hcs. unfold slide.
+  eapply slide_fuel_bound; [exact Hc | assumption | | lia].
+  intros Hp. pose proof (cert_rank_le false es r stk pos cs Hc Hp (Hcs Hp)). lia.
+Qed.
+
 Theorem slide_bound : forall p, guardedb p = true ->
   forall es, In es p ->
-  forall orc pos cs, incl cs (catch_labels es) ->
+  forall orc pos cs, (pos < length es -> stk_at (compute_stk es) pos = Some cs) ->
     s_stop (slide (length es + 1) es orc pos cs) <> OutOfFuel.
 Proof.
   intros p Hg es Hin orc pos cs Hcs. unfold guardedb in Hg. rewrite forallb_forall in Hg.
-  specialize (Hg es Hin). unfold guarded_flowb in Hg. unfold slide.
-  eapply slide_fuel_bound; [exact Hg | assumption | | lia].
-  intros Hp. unfold check_rank, check_rank_gen in Hg. apply andb_true_iff in Hg. destruct Hg as [_ Hall].
-  rewrite forallb_forall in Hall. assert (Hi : In pos (seq 0 (length es))) by (apply in_seq; lia).
-  specialize (Hall pos Hi). apply andb_true_iff in Hall. destruct Hall as [Hle _].
-  apply Nat.leb_le in Hle. lia.
-Qed.
-
-(* the same with an externally supplied certificate (used by the harness for very long flows) *)
-Theorem slide_bound_cert : forall es r, check_rank es r = true ->
-  forall orc pos cs, incl cs (catch_labels es) ->
-    s_stop (slide (length es + 1) es orc pos cs) <> OutOfFuel.
-Proof.
-  intros es r Hc orc pos cs Hcs. unfold slide.
-  eapply slide_fuel_bound; [exact Hc | assumption | | lia].
-  intros Hp. unfold check_rank, check_rank_gen in Hc. apply andb_true_iff in Hc. destruct Hc as [_ Hall].
-  rewrite forallb_forall in Hall. assert (Hi : In pos (seq 0 (length es))) by (apply in_seq; lia).
-  specialize (Hall pos Hi). apply andb_true_iff in Hall. destruct Hall as [Hle _].
-  apply Nat.leb_le in Hle. lia.
+  specialize (Hg es Hin). unfold guarded_flowb in Hg.
+  eapply slide_bound_cert; eassumption.
 Qed.
 
 (* the number of executed elements is bounded as well *)
@@ -146,14 +123,21 @@ Qed.
 Example unguarded_spins : exists es orc, guarded_flowb es = false /\
   forall n, s_stop (slide n es orc 1 []) = OutOfFuel.
 Proof.
-  exists [EBlock; ELabel 0 false; EStep; EJump 0 false], (fun _ => OTrue).
+  exists [EWaitInt true; ELabel 0 false; EStep; EJump 0 false], (fun _ => OTrue).
   split; [reflexivity|].
   assert (H : forall n k st ni,
-      s_stop (slide_fuel n [EBlock; ELabel 0 false; EStep; EJump 0 false] (fun _ => OTrue) k 2 [] st ni) = OutOfFuel /\
-      s_stop (slide_fuel n [EBlock; ELabel 0 false; EStep; EJump 0 false] (fun _ => OTrue) k 3 [] st ni) = OutOfFuel /\
-      s_stop (slide_fuel n [EBlock; ELabel 0 false; EStep; EJump 0 false] (fun _ => OTrue) k 1 [] st ni) = OutOfFuel).
+      s_stop (slide_fuel n [EWaitInt true; ELabel 0 false; EStep; EJump 0 false] (fun _ => OTrue) k 2 [] st ni) = OutOfFuel /\
+      s_stop (slide_fuel n [EWaitInt true; ELabel 0 false; EStep; EJump 0 false] (fun _ => OTrue) k 3 [] st ni) = OutOfFuel /\
+      s_stop (slide_fuel n [EWaitInt true; ELabel 0 false; EStep; EJump 0 false] (fun _ => OTrue) k 1 [] st ni) = OutOfFuel).
   { induction n as [|n IH]; intros; [repeat split; reflexivity|].
     destruct (IH (S k) st ni) as [H2 [H3 H1]].
     repeat split; simpl; unfold label_pos; simpl; try apply IH. }
   intros n. unfold slide. apply H.
 Qed.
+
+(* every start configuration the verifier predicts for a guarded flow: e.g. a flow start *)
+Example guarded_inhabited :
+  let es := [EWaitInt true; ECatch (Some 0); EBlock BMatch; EJump 1 false; ELabel 0 false; EWaitHeads; ECatch None;
+             EStep; EAbort; ELabel 1 false; ECatch None] in
+  guardedb [es] = true /\ stk_at (compute_stk es) 1 = Some [] /\ stk_at (compute_stk es) 3 = Some [0].
+Proof. repeat split. Qed.
